@@ -1692,7 +1692,13 @@ isal_deflate(struct isal_zstream *stream)
                 in_size = stream->avail_in + buffered_size;
                 out_size = stream->total_out;
 
-        } while (internal && stream->avail_in > 0 && stream->avail_out > 0 &&
+                /* Input that is still buffered has to be compressed as well when a flush
+                 * or the end of the stream is requested: the pass above may have done no
+                 * more than complete an earlier flush */
+        } while (internal && stream->avail_out > 0 &&
+                 (stream->avail_in > 0 ||
+                  (buffered_size > 0 && state->state == ZSTATE_NEW_HDR &&
+                   (flush_type != NO_FLUSH || end_of_stream))) &&
                  (in_size_initial != in_size || out_size_initial != out_size));
 
         /* Buffer history if data was pulled from the external buffer and future
